@@ -321,6 +321,15 @@ func (hc *handCtl) round(q wire.Message, check neutrino.VerifCheckFn) (neutrino.
 		case <-finished:
 		case <-time.After(handSubscribeDeadline + handHoldDeadline + 2*handDrainDeadline):
 		}
+		// The per-peer goroutines of queryAllPeers unsubscribe after it has
+		// returned: wait for that, so that "subscribed" in the next round
+		// means subscribed to the next round.
+		t0 := time.Now()
+		for i := 0; i < n; i++ {
+			for hc.h.Subscribed(i) && time.Since(t0) < handSubscribeDeadline {
+				time.Sleep(20 * time.Microsecond)
+			}
+		}
 		mu.Lock()
 		rd.Evs = append([]HandEv(nil), evs...)
 		mu.Unlock()
